@@ -276,7 +276,7 @@ Definition phase1 (a : aset) (d : nat) (alive : bool) : aset :=
 
 Definition core_entries (c : cfg) (has : option Z) (a1 : aset) (d : nat) : list (nat * Z) :=
   match has with
-  | Some raw => match a_idx a1 d with SAt i => set_nth i (d, raw + c_off c d) (a_entries a1) | _ => a_entries a1 end
+  | Some raw => match a_idx a1 d with SAt i => set_lat_nth i (raw + c_off c d) (a_entries a1) | _ => a_entries a1 end
   | None => a_entries a1
   end.
 
@@ -418,6 +418,12 @@ Proof.
 Qed.
 
 
+Lemma set_lat_nth_ok : forall idx es d i s,
+  idx_ok idx es -> idx d = SAt i -> set_lat_nth i s es = set_nth i (d, s) es.
+Proof.
+  intros idx es d i s H Hd. apply H in Hd. destruct Hd as [l Hl]. unfold set_lat_nth. rewrite Hl. reflexivity.
+Qed.
+
 Lemma notify_set_ok : forall c st t a v d alive,
   set_ok a v -> set_ok (fst (notify c st t a d alive)) (view_notify c (a_policy a) st t d alive v).
 Proof.
@@ -431,30 +437,32 @@ Proof.
     + assert (Hm : view_mem d v = true).
       { apply view_mem_in. apply Hsim. apply (idx_ok_in _ _ _ Hok). eauto. }
       rewrite Hm. destruct (lat_of (a_policy a) (st_lat st d t)) as [raw|]; [|split; auto].
-      rewrite Ei. split; [eapply idx_ok_set; eauto|eapply sim_set; eauto].
+      rewrite Ei. rewrite (set_lat_nth_ok _ _ _ _ _ Hok Ei). split; [eapply idx_ok_set; eauto|eapply sim_set; eauto].
     + assert (Hd : forall i, a_idx a d <> SAt i) by (intros; congruence).
       destruct (sim_add mp _ _ _ _ Hok Hsim Hd) as [Hm Hs]. rewrite Hm.
       pose proof (idx_ok_add _ _ _ Hok Hd) as Hok'.
       cbn [add_alive a_idx a_entries].
       destruct (lat_of (a_policy a) (st_lat st d t)) as [raw|]; [|split; auto].
-      rewrite updn_same. split; [eapply idx_ok_set; eauto; apply updn_same|eapply sim_set; eauto; apply updn_same].
+      rewrite updn_same. rewrite (set_lat_nth_ok _ _ d _ _ Hok' (updn_same _ _ _ _)).
+      split; [eapply idx_ok_set; eauto; apply updn_same|eapply sim_set; eauto; apply updn_same].
     + assert (Hd : forall i, a_idx a d <> SAt i) by (intros; congruence).
       destruct (sim_add mp _ _ _ _ Hok Hsim Hd) as [Hm Hs]. rewrite Hm.
       pose proof (idx_ok_add _ _ _ Hok Hd) as Hok'.
       cbn [add_alive a_idx a_entries].
       destruct (lat_of (a_policy a) (st_lat st d t)) as [raw|]; [|split; auto].
-      rewrite updn_same. split; [eapply idx_ok_set; eauto; apply updn_same|eapply sim_set; eauto; apply updn_same].
+      rewrite updn_same. rewrite (set_lat_nth_ok _ _ d _ _ Hok' (updn_same _ _ _ _)).
+      split; [eapply idx_ok_set; eauto; apply updn_same|eapply sim_set; eauto; apply updn_same].
   - destruct (a_idx a d) as [i| |] eqn:Ei.
     + destruct (remove_at_spec a d i Hok Ei) as (Hok' & Hin' & Hnot & _).
       assert (Hent : match lat_of (a_policy a) (st_lat st d t) with
                      | Some raw => match a_idx (remove_at a d i) d with
-                                   | SAt i0 => set_nth i0 (d, raw + c_off c d) (a_entries (remove_at a d i))
+                                   | SAt i0 => set_lat_nth i0 (raw + c_off c d) (a_entries (remove_at a d i))
                                    | _ => a_entries (remove_at a d i) end
                      | None => a_entries (remove_at a d i) end = a_entries (remove_at a d i)).
       { destruct (lat_of _ _); [|reflexivity]. destruct (a_idx (remove_at a d i) d) eqn:E; try reflexivity. exfalso. eapply Hnot; eauto. }
       rewrite Hent. split; [exact Hok'|eapply sim_remove; eauto].
     + assert (Hent : match lat_of (a_policy a) (st_lat st d t) with
-                     | Some raw => match a_idx a d with SAt i0 => set_nth i0 (d, raw + c_off c d) (a_entries a) | _ => a_entries a end
+                     | Some raw => match a_idx a d with SAt i0 => set_lat_nth i0 (raw + c_off c d) (a_entries a) | _ => a_entries a end
                      | None => a_entries a end = a_entries a).
       { destruct (lat_of _ _); [|reflexivity]. rewrite Ei. reflexivity. }
       rewrite Hent. split; [exact Hok|]. eapply sim_remove; [|exact Hsim].
@@ -462,7 +470,7 @@ Proof.
       assert (In (fst x) (map fst (a_entries a))) by (apply in_map; auto).
       apply (idx_ok_in _ _ _ Hok) in H. destruct H. congruence.
     + assert (Hent : match lat_of (a_policy a) (st_lat st d t) with
-                     | Some raw => match a_idx a d with SAt i0 => set_nth i0 (d, raw + c_off c d) (a_entries a) | _ => a_entries a end
+                     | Some raw => match a_idx a d with SAt i0 => set_lat_nth i0 (raw + c_off c d) (a_entries a) | _ => a_entries a end
                      | None => a_entries a end = a_entries a).
       { destruct (lat_of _ _); [|reflexivity]. rewrite Ei. reflexivity. }
       rewrite Hent. split; [exact Hok|]. eapply sim_remove; [|exact Hsim].
